@@ -23,6 +23,7 @@ import (
 	"berty.tech/go-orbit-db/stores"
 	"berty.tech/go-orbit-db/stores/operation"
 	"berty.tech/go-orbit-db/stores/replicator"
+	"berty.tech/go-orbit-db/utils"
 	"berty.tech/go-orbit-db/verifhook"
 	"github.com/ipfs/boxo/path"
 	cid "github.com/ipfs/go-cid"
@@ -682,15 +683,12 @@ func (b *BaseStore) Load(ctx context.Context, amount int) error {
 
 					// nor an entry fetched under an address that is not the address of
 					// its content (Sync and the replicator refuse it the same way)
-					canonical, wErr := b.IO().Write(ctx, b.IPFS(), e, nil)
-					if wErr != nil {
-						// the check could not be made: that is not a verdict on the entry
-						span.AddEvent("store-head-loading-error")
-						err = fmt.Errorf("unable to check the address of entry %s: %w", e.GetHash().String(), wErr)
-						return
-					}
-
-					if !canonical.Equals(e.GetHash()) {
+					// (the address is computed, nothing is written: it cannot fail because
+					// of the node or the context, only on an entry that has no encoding -
+					// a block of a version this IO reads and does not write - and that is
+					// a verdict on the entry too)
+					canonical, aErr := utils.EntryAddress(ctx, b.IO(), b.IPFS(), e)
+					if aErr != nil || !canonical.Equals(e.GetHash()) {
 						refused++
 						continue
 					}
@@ -1034,12 +1032,8 @@ func (b *BaseStore) LoadFromSnapshot(ctx context.Context) error {
 			continue
 		}
 
-		canonical, err := b.IO().Write(ctx, b.IPFS(), e, nil)
-		if err != nil {
-			return fmt.Errorf("unable to check the address of entry %s: %w", e.GetHash().String(), err)
-		}
-
-		if !canonical.Equals(e.GetHash()) {
+		canonical, aErr := utils.EntryAddress(ctx, b.IO(), b.IPFS(), e)
+		if aErr != nil || !canonical.Equals(e.GetHash()) {
 			continue
 		}
 
